@@ -36,7 +36,7 @@ Record obs := {
 Record case := { c_cfg : config; c_steps : list (op * obs) }.
 
 Definition exc_idx (e : exc) : nat :=
-  match e with ENotFound => 0 | EOperational => 1 | EAssertion => 2 | EAttribute => 3 | EBadHandle => 4 | EDuplicate => 5 end%nat.
+  match e with ENotFound => 0 | EOperational => 1 | EAssertion => 2 | EAttribute => 3 | EBadHandle => 4 | EDuplicate => 5 | EPickling => 6 end%nat.
 Definition exc_eqb a b := Nat.eqb (exc_idx a) (exc_idx b).
 Definition vrow_eqb := list_eqb val_eqb.
 Definition stmt_eqb (a b : stmt) : bool :=
@@ -59,6 +59,7 @@ Definition outv_eqb (a b : outv) : bool :=
   | RObjs l, RObjs l' => list_eqb (fun x y => (fst x =? fst y) && tok_eqb (snd x) (snd y)) l l'
   | RVal v, RVal v' => val_eqb v v'
   | RNum n, RNum n' => n =? n'
+  | RState i l, RState i' l' => (i =? i') && list_eqb (option_eqb val_eqb) l l'
   | _, _ => false
   end.
 Definition outcome_eqb (a b : outcome) : bool :=
